@@ -1,15 +1,19 @@
 """C03 — well-formed server output is decoded exactly, including binary and command lists."""
 import mpdgen as g
-from connlib import COQ_FILES, run_cases, describe, print_replay
+import connlib
+from connlib import run_cases, describe, print_replay
 from vlib import Failure, finish, unhexs
+
+COQ_FILES = connlib.COQ_FILES + ["Grammar.v", "RoundTripProofs.v"]
 
 
 def gen(ctx):
     rng = ctx.rng
-    cases, expect = [], []
+    cases, expect, abstract = [], [], []
     n = 300 if ctx.tier == "quick" else 4000
 
     def add(rs, trailing, tail="eof"):
+        abstract.extend(rs)
         s = b"".join(g.enc_response(r) for r in rs) + trailing
         exp = [g.show_response(r) for r in rs]
         for seg in (g.seg_whole(s), g.seg_random(rng, s), g.seg_random(rng, s, maxlen=rng.choice([1, 3, 50]))):
@@ -19,7 +23,10 @@ def gen(ctx):
 
     # non-vacuity corpus: look-alike values and payloads
     fr = {"fields": [("a", "OK"), ("b", "list_OK"), ("c", "ACK [5@0] {} x"), ("d", "binary: 3"), ("e", ""), ("f", "äö"),
-                     ("binary", "3x"), ("OK", "OK"), ("ACK", "[1@2]")], "bin": b"OK\nACK\n\x00\xff", "binpos": 4}
+                     ("binary", "3x"), ("OK", "OK"), ("ACK", "[1@2]"),
+                     # the boundary of the one exclusion: none of these is a u64 numeral, so all are plain fields
+                     ("binary", "+3"), ("binary", ""), ("binary", " 3"), ("binary", "3 "), ("binary", "18446744073709551616"), ("binary", "٣"),
+                     ("Binary", "3"), ("list_OK", "list_OK")], "bin": b"OK\nACK\n\x00\xff", "binpos": 4}
     add([{"form": "single", "frames": [fr], "error": None, "partial": None}], b"")
     add([{"form": "list", "frames": [fr, {"fields": [], "bin": None, "binpos": None}, fr], "error": (2 ** 64 - 1, 2 ** 64 - 1, "x_y", "m"),
           "partial": fr}], b"O")
@@ -53,15 +60,44 @@ def gen(ctx):
         rs = [g.gen_response(rng, payload_max=rng.choice([200, 200, 9000])) for _ in range(k)]
         trailing = rng.choice([b"", b"", b"O", b"foo: ba", b"\xff", b"binary: 9\nab", b"garbage\n"])
         add(rs, trailing, rng.choice(["eof", "err"]))
-    return cases, expect
+    return cases, expect, abstract
+
+
+def spec_tie(ctx, abstract):
+    """The theorems of Props/C03.v are about Grammar.enc / Grammar.wf_resp; the streams fed to the real
+    connections come from mpdgen.enc_response.  Tie the two: on every generated abstract response, and on a
+    mutated (mostly ill-formed) copy of each, the extracted enc must produce the very bytes the generator
+    produces, and wf_resp must hold wherever the Python mirror of the protocol's well-formedness holds
+    (so that the theorem covers everything the protocol allows; wf_resp accepting MORE than the mirror only
+    makes the theorem stronger, it is counted but is no alarm - e.g. after the client's charsets were widened)."""
+    rs = list(abstract)
+    assert all(g.wf_response(r) for r in rs), "generator produced an ill-formed response"
+    rs += [g.ill_formed(ctx.rng, r) for r in abstract]
+    lines = [g.spec_case(r) for r in rs]
+    out = ctx.run_model(lines)
+    dis, wider = [], 0
+    for r, c, got in zip(rs, lines, out):
+        pywf, exp_bytes = g.wf_response(r), g.hexs(g.enc_response(r))
+        t = got.split(" ")
+        ok = len(t) == 2 and t[0] in ("wf=0", "wf=1") and t[1] == exp_bytes and not (pywf and t[0] == "wf=0")
+        if ok and not pywf and t[0] == "wf=1":
+            wider += 1
+        if not ok:
+            dis.append({"case": c[:4000], "impl": "python generator: " + g.spec_expect(r)[:4000], "model": "Grammar.v: " + got[:4000]})
+    return dis, len(lines), sum(1 for r in rs if not g.wf_response(r)), wider
 
 
 def run(ctx, only=None):
+    spec_n = ill_n = wider = 0
     if only is not None:
         cases, expect = only["cases"], only["expect"]
+        impl, model, dis = run_cases(ctx, cases)
     else:
-        cases, expect = gen(ctx)
-    impl, model, dis = run_cases(ctx, cases)
+        cases, expect, abstract = gen(ctx)
+        impl, model, dis = run_cases(ctx, cases)
+        if ctx.model_ok:
+            sdis, spec_n, ill_n, wider = spec_tie(ctx, abstract)
+            dis = dis + sdis
     fails = []
     for c, out, exp in zip(cases, impl, expect):
         got = out.split(" | ")
@@ -75,14 +111,18 @@ def run(ctx, only=None):
         print_replay(cases, impl, model, fails)
     kinds = {"with_binary": sum(1 for e in expect if any("bin=~" not in x.replace("bin=~", "", 0) or "bin=" in x and "bin=~" not in x for x in e)),
              "with_error": sum(1 for e in expect if any("err[none]" not in x for x in e)),
-             "multi_response": sum(1 for e in expect if len(e) > 1), "cases": len(cases)}
+             "multi_response": sum(1 for e in expect if len(e) > 1), "cases": len(cases),
+             "spec_tie_responses": spec_n, "spec_tie_ill_formed": ill_n, "spec_wf_wider_than_protocol_mirror": wider}
     nontrivial = {c for c, e in zip(cases, expect) if len(e) > 1 or any("/" in x or "err[none]" not in x or "bin=~" not in x for x in e)}
     return finish(
         ctx, evaluations=len(cases), distinct_nontrivial=len(nontrivial),
         rule="abstract responses (0..6 frames, single/list form, keys and values from pools that over-represent protocol look-alikes, payloads "
              "0..9000 bytes with protocol-like content, errors of all shapes, 1..5 responses back to back, optional trailing garbage) are "
              "encoded, pushed through both real connections whole and under random segmentation, and the printed Response is compared with the "
-             "abstract one; non-trivial = several responses, several frames, an error or a payload",
+             "abstract one; non-trivial = several responses, several frames, an error or a payload.  Spec tie: every generated abstract "
+             "response (and one mutation of each, mostly ill-formed) is also encoded by the extracted Grammar.enc and judged by Grammar.wf_resp; "
+             "the bytes must equal the Python generator's and wf_resp must hold wherever the Python mirror of the protocol's well-formedness does "
+             "(reported as correspondence disagreements)",
         samples=[describe(cases[0])[:500], describe(cases[len(cases) // 2])[:500]], distribution=kinds,
         oracle_failures=fails, disagreements=dis,
     )
